@@ -66,8 +66,8 @@ class SigmaArray(np.ndarray):
         if id_b in memo:
             return memo[id_b][-1]
 
-        val = np.insert(np.asarray(a), pos, np.asarray(b))
-        sigma = np.insert(a.sigma, pos, b.sigma)
+        val = np.insert(np.asarray(a), pos, np.asarray(b), axis=0)
+        sigma = np.insert(a.sigma, pos, b.sigma, axis=0)
         new_sigma = cls(val, sigma)
         memo[id_a] = (a, new_sigma)
         memo[id_b] = (b, new_sigma)
